@@ -111,6 +111,15 @@ class Interp:
         if name == "implies":
             a, b = ops.truth(self, args[0]), ops.truth(self, args[1])
             return VBool(t=z3.Implies(a.term(), b.term()))
+        if name == "hexbytes":
+            s_ = self.resolve(args[0])
+            if s_.c is not None:
+                try:
+                    return VBytes.lit(bytes.fromhex(s_.c))
+                except ValueError:
+                    return VBytes.lit(b"")
+            n_ = self.B.opaque_int(self, "hexlen", [s_], 0, MAXLEN)
+            return self.B.opaque_bytes(self, "fromhex", [s_], n_.as_int())
         if name == "pending_getters":
             q_ = self.resolve(args[0])
             return mkint(self.hobj(q_).meta.get("pending_getters", 0))
@@ -1132,6 +1141,11 @@ class Interp:
             o = self.path.heap[base.ref]
             if o.kind == "inst":
                 if name in o.fields:
+                    # a property of the class wins over an instance attribute of the same name (data descriptor)
+                    if any(name in kc.methods and "property" in decorators(kc.methods[name]) for kc in o.cls.mro() if not kc.builtin):
+                        pv = self.class_attr(o.cls, name)
+                        if isinstance(pv, VFunc) and pv.kind == "property":
+                            return self.call_func_now(pv.bind(base), [], {})
                     return o.fields[name]
                 if name == "__class__":
                     return o.cls
